@@ -317,9 +317,17 @@ vp_close(int fd) {
 /* ---- memcpy into the write buffer -------------------------------------- */
 static void *
 vp_memcpy(void *dst, const void *src, size_t n) {
-  if (vp_wbuf != NULL && VP_IN(dst, vp_wbuf, VP_WBUF)) {
+#ifdef VP_REPLAY
+  int inbuf = vp_wbuf != NULL && VP_IN(dst, vp_wbuf, VP_WBUF);
+#else
+  /* by OBJECT only: the range is asserted below (memory safety of the copy) */
+  int inbuf = vp_wbuf != NULL && dst != NULL &&
+              __CPROVER_POINTER_OBJECT(dst) == __CPROVER_POINTER_OBJECT(vp_wbuf);
+#endif
+  if (inbuf) {
     size_t d = (size_t)((const unsigned char *)dst - vp_wbuf);
-    VP_ASSERT(d + n <= VP_WBUF && d + n >= d, "memcpy stays inside the 64 KiB write buffer");
+    VP_ASSERT(VP_IN(dst, vp_wbuf, VP_WBUF) && d + n <= VP_WBUF && d + n >= d,
+              "memcpy stays inside the 64 KiB write buffer");
     if (VP_IN(src, vp_stream, VP_TOTAL)) {
       size_t s = (size_t)((const unsigned char *)src - vp_stream);
       VP_ASSERT(s >= vp_cur_start && s + n <= vp_cur_end && s + n >= s,
@@ -344,13 +352,18 @@ vp_memcpy(void *dst, const void *src, size_t n) {
 #endif
     return dst;
   }
+#ifdef VP_MEMCPY_BYTES
   {
+    /* small copies elsewhere in env_unix_impl.h (ldb_strdup) */
     unsigned char *dp = (unsigned char *)dst;
     const unsigned char *sp = (const unsigned char *)src;
     size_t i;
     for (i = 0; i < n; i++)
       dp[i] = sp[i];
   }
+#else
+  VP_ASSERT(0, "vp-model: memcpy outside the write buffer is not expected in this harness");
+#endif
   return dst;
 }
 
